@@ -480,6 +480,12 @@ func judgeSrv(j *judge, s *srvSession, o, base *srvObs, seg Seg, mode string) {
 		}
 		nwant++
 		if len(cs) == 0 {
+			if bad != "" {
+				// the stream ends in an illegal frame: the server drops the connection (and releases its fids)
+				// as soon as it sees that frame, so a request parsed just before it may find its fid gone; that
+				// it was parsed, once and in order, is checked above
+				continue
+			}
 			j.flag("srv:not-executed"+kk, fmt.Sprintf("request %d (%s, %d bytes) never reached the implementation (%s)", idx, mg.Kind, len(mg.B), ctx), seg, mode)
 			continue
 		}
